@@ -1,6 +1,6 @@
 (* Case record and correspondence checker for connection-level runs (M1).  No proofs. *)
 From Passage Require Import Lib.Bytes Spec.McLayout Codec.VarInt Codec.Desc Gen.PacketsGen Gen.ConstsGen
-  Codec.PacketCheck Crypto.Cookie Conn.Types Conn.Prog Conn.Sem1 Conn.Sem2 Conn.Monitor Conn.Order Conn.Checks Conn.Reader.
+  Codec.PacketCheck Crypto.Cookie Conn.Types Conn.Prog Conn.Sem1 Conn.Sem2 Conn.Monitor Conn.Order Conn.Checks Conn.Reader Conn.Switch.
 
 Record conn_case := {
   cc_cfg : conn_cfg;
@@ -327,6 +327,17 @@ Definition check_c02 := check_with chk_c02.
 Definition check_c03 := check_with (fun _ _ => chk_c03).
 Definition check_c10 := check_with chk_c10.
 Definition check_order := check_with (fun _ _ => chk_true).
+
+(* C05 at connection level: the switch monitor (Conn/Switch.v) on the implementation's trace.
+   The harness client decrypts what it receives with an independent CFB8 from the moment it
+   sent its Encryption Response: a handler that switches too early, too late, twice or with
+   another key makes the following packets undecodable (unknown_packet), which no phase admits *)
+Definition check_c05c (c : conn_case) : Z :=
+  let k := corr_both c in
+  if k =? 4 then 4
+  else k + moni (switch_ok (obs_trace c)
+                 && accepts (step_with chk_true) m_init (obs_trace c)
+                 && negb (outcome_eqb (cc_outcome c) (OErr KPanic))).
 
 (* ---- C10: two-connection histories, judged on the implementation's observations alone ---- *)
 Record pair_case := {
